@@ -151,7 +151,7 @@ func ruleLogShapes(c *eng.Ctx) {
 		okPred := false
 		if pred != nil {
 			for _, r := range eng.Returns(pred) {
-				if eng.Bin(token.GTR, eng.LoadNamed("Offset", nil), eng.Param("offset"))(eng.RetVals(r)[0]) {
+				if eng.RelVal(eng.LoadNamed("Offset", nil), eng.Param("offset"), eng.GT)(eng.RetVals(r)[0]) {
 					okPred = true
 				}
 			}
